@@ -1,7 +1,9 @@
 """C08 — activation / deactivation boundaries are exact under any interleaving with concurrent updates.
 
 The real Dispatcher + modules run under the deterministic scheduler (vlib.sched): request threads `h<cid>` (one per
-connection, a script of activate/deactivate/ident/disconnect) and updater threads `u<k>` (a script of assignments).
+connection, a script of activate/deactivate/ident/disconnect and read/change requests with the scripted result of the driver
+function) and updater threads `u<k>` (a script of assignments, each with its time stamp).  Initial states (`init`), omit
+windows (`omit`) and the module class (`cls`) are part of a case.
 Every explored schedule is (1) replayed label by label on the Lean model (`k: replay`) and compared through the
 observable trace, the final cache and the dispatcher's tables after every completed operation, (2) judged by the Lean
 monitors (`k: judge`).  Nothing about the property is decided here.
@@ -27,43 +29,57 @@ from vlib.shrink import ddmin
 
 META = {
     'level_text': 'Theorems (for all interleavings of any number of connections and updaters, all module/parameter names as strings, any '
-                  'outcome of the logging switch-off, any per-parameter choice of "unchanged values are / are not re-announced", on the '
-                  'labelled transition system that models the repaired dispatcher): '
-                  'snapshot_complete, no_loss, quiescent_last_eq_cache, silent_after_deactivate, each also in an index form that says the '
+                  'outcome of the logging switch-off, any initial cache (values, error states, "not initialized"), any per-parameter omit '
+                  'window, any time stamps, any read / change requests with any driver result, on the labelled transition system that '
+                  'models the repaired dispatcher): '
+                  'snapshot_complete, no_loss, quiescent_last_eq_cache and quiescent_last_eq_node_cache (the last message equals the '
+                  'node\'s entry, time stamp included), silent_after_deactivate, each also in an index form that says the '
                   'English sentence without the monitor (silent_after_deactivate_explicit, snapshot_complete_explicit with replies_match, '
                   'no_loss_explicit with firm_in_force_explicit; snapshot_monitor_sound / noloss_monitor_sound for ANY trace, i.e. also '
                   'for the implementation traces the monitors judge), others_unaffected, tables_others_unaffected + broadcast_leaves_tables '
                   '(no action changes a table row of another connection; an updater changes none), tables_own (every table entry under '
                   'whatever key is an activation of that very connection still possibly in force), deactivate_exact (the string tests of '
                   'unsubscribe = the matching deactivate), only_exported (no update of a parameter / module that is not exported is ever '
-                  'delivered, whatever is activated or assigned), deadlock_free.  The model is tied to frappy/protocol/dispatcher.py and '
-                  'modulebase.announceUpdate by replaying every explored schedule of the real code label by label (request arrival, lock '
-                  'acquire/release, send, end) on the model and comparing the global observable trace, the final cache and the '
-                  'dispatcher\'s tables (_active_connections, _subscriptions) after every completed operation; the Lean monitors of '
-                  'Spec/C08 judge every implementation trace.',
+                  'delivered, whatever is activated or assigned), cache_changes_only_by_store + omitted_announcement_stores_nothing (the '
+                  'cache, time stamps included, changes only by a store that is in the trace), omit_window_exact, '
+                  'request_update_within_request + request_stores_what_the_request_says (an update produced by a read / change request is '
+                  'announced by the requesting thread inside that request, for that parameter, with the driver\'s result, and is covered '
+                  'by all clauses above), deadlock_free (_lock -> accessLock -> updateLock -> _subscription_lock).  The model is tied to '
+                  'frappy/protocol/dispatcher.py and modulebase.announceUpdate / the read_ and write_ wrappers by replaying every explored '
+                  'schedule of the real code label by label (request arrival, lock acquire/release, send, end) on the model and comparing '
+                  'the global observable trace (values, error classes, time stamps), the final cache and the dispatcher\'s tables '
+                  '(_active_connections, _subscriptions) after every completed operation; the Lean monitors of Spec/C08 judge every '
+                  'implementation trace, the quiescence clause against the cache read from the real node.',
     'level_note': 'Trusted: Lean kernel + axioms propext/Classical.choice/Quot.sound; the deterministic scheduler preempts only at request '
                   'arrival, lock and send primitives; threading.RLock, the TCP handler send lock and set iteration order are modelled, not '
-                  'verified; the omit window of a parameter is either 0 or longer than the run.',
+                  'verified; time stamps are scripted whole numbers (the clock inside announceUpdate is a stand-in).',
     'trusted': [
         'the scheduler yields only at request arrival, lock acquire/release and at send_reply: a preemption inside broadcast_event '
         'between the three set reads is not exercised by the harness (the model covers it by the lock discipline: the sets are only read '
         'and written under _subscription_lock, and the tables are compared with the model after every completed operation)',
-        'omit window for unchanged values: per parameter either 0 (update_unchanged=\'always\') or longer than the run '
-        '(update_unchanged=\'never\', a long omit_unchanged_within); a window that ends during a run is not modelled',
-        'the `emit` event is recorded by a paramCallback, i.e. right after the store under the update lock and before the broadcast '
-        '(a different order in announceUpdate shows as a correspondence disagreement, not as a verdict)',
+        'time stamps: frappy.modulebase.time is replaced by a scripted clock (a thread carrying out a scripted assignment reads that '
+        'assignment\'s time stamp, start-up reads a constant), so every time stamp is a whole number; the omit-window comparison is '
+        'transcribed exactly (Cfg.omitWithin), real float time is not run',
+        'the `emit` event is recorded by a paramCallback, i.e. right after the store under the update lock and before the broadcast, '
+        '`emitDone` at the return of announceUpdate (a different order in announceUpdate shows as a correspondence disagreement, not as a '
+        'verdict)',
         'the reply of a request is sent by the connection thread after handle_request returned, outside every dispatcher lock '
         '(frappy/protocol/interface/handler.py), which the harness thread reproduces; the request marker is written by the harness '
         'thread right after the `recv` scheduling point',
+        'which read / change requests are refused, answered from the cache, or go through the read_/write_ wrapper (Cfg.rw) is read off the '
+        'real objects by the harness (rw_kind), not transcribed from _getParameterValue / _setParameterValue; what the driver function '
+        'returns or raises is part of the request script',
     ],
     'modelled_not_verified': [
         'Python threading.RLock semantics (mutual exclusion, re-entrance, no fairness)',
         'the TCP handler send lock / socket: send_reply is one atomic labelled step',
         'iteration order of the listener set in broadcast_event (the model allows any order; the replay follows the real one)',
+        'module.accessLock: acquired / released by request threads only (no lock state; never contended while _lock is held)',
     ],
-    'assumptions': ['updaters assign through setattr / announceUpdate only; values are integral floats; errors are SECoP error classes',
+    'assumptions': ['updaters assign through setattr / announceUpdate only (a poller going through read_<p> takes accessLock first: not '
+                    'modelled for updater threads); values are integral floats; errors are SECoP error classes',
                     'one request thread per connection; a connection is disconnected by its own thread',
-                    'updates are produced by updater (poller) threads, not by read/change requests of a connection'],
+                    'data of change requests passes import_value / validate / the limit checks (values are chosen so)'],
 }
 
 
